@@ -533,3 +533,12 @@ Proof.
   destruct (squeeze_n_refines k st Hst) as [R1 [_ R3]]. destruct (accepted_map _ R1) as [A1 _].
   rewrite <- R3 in Hen. cbn [fst] in Hen. rewrite <- A1, map_length in Hen. exact Hen.
 Qed.
+
+(* ceil(3n/10) is the fewest number of squeezes that supplies the 3n elements of n scalars *)
+Lemma scalar_squeezes_minimal n :
+  (3 * n <= 10 * ((3 * n + 9) / 10))%nat /\ forall k', (k' < (3 * n + 9) / 10)%nat -> (10 * k' < 3 * n)%nat.
+Proof.
+  pose proof (Nat.div_mod (3 * n + 9) 10 ltac:(lia)) as D.
+  pose proof (Nat.mod_upper_bound (3 * n + 9) 10 ltac:(lia)) as B.
+  revert D B. generalize ((3 * n + 9) / 10)%nat ((3 * n + 9) mod 10)%nat. intros q r D B. split; [lia|]. intros k' Hk'. lia.
+Qed.
